@@ -432,6 +432,12 @@ func (db *SingleBucketBackend) PutObject(
 	}
 	closed = true
 
+	if conflict, err := keyConflict(db.fs, "", objectName); err != nil {
+		return result, err
+	} else if conflict {
+		return result, conflictingObjectName(objectName)
+	}
+
 	if objectDir != "." {
 		if err := db.fs.MkdirAll(objectDir, 0777); err != nil {
 			return result, err
@@ -505,6 +511,14 @@ func (db *SingleBucketBackend) DeleteObject(bucketName, objectName string) (resu
 func (db *SingleBucketBackend) deleteObjectLocked(bucketName, objectName string) error {
 	if !validSingleObjectName(objectName) {
 		// Such a key cannot have been stored, so there is nothing to delete:
+		return nil
+	}
+
+	// A directory is not an object (it holds the keys below it): there is
+	// no such key to delete.
+	if isDir, err := dirExists(db.fs, filepath.FromSlash(objectName)); err != nil {
+		return err
+	} else if isDir {
 		return nil
 	}
 
